@@ -103,7 +103,8 @@ def main():
       '   corrected in the machinery.\n')
     w('2. **Sensitivity, my own mutants** (`mutants/*.diff`, written while building each monitor; applied to a scratch\n'
       '   worktree by `tools/mutant.sh`, never to `/repo`). `tools/mutant_matrix.sh` runs each against the checks that\n'
-      '   own the touched behaviour; result (quick tier):\n')
+      '   own the touched behaviour; result (quick tier; the 70 (mutant, check) pairs that had been caught were\n'
+      '   re-run with the final harness: all still caught, one now ends as inconclusive because the mutant hangs):\n')
     mpath = os.path.join(V, 'notes', 'mutant-matrix.txt')
     own = {}
     seeded = {}
